@@ -1,4 +1,4 @@
-//@ unit u5_marks props C09 C18 also C11
+//@ unit u5_marks props C09 C18 also C11 C02
 // Unit U5: which (room, entity, day) buckets of the daily log each kind of write marks for recomputation
 // (daily_log.rs, node.rs, mutation_query.rs, deletion.rs, edge.rs).  The recomputation itself (SQL + hashing over query
 // results) is out of reach; what is decided here is the other half of the mechanism: every write marks every bucket
@@ -181,11 +181,12 @@ pub closed spec fn marks_superset(a: DailyMutations, b: DailyMutations) -> bool 
 //@ end
 // ================================================================= tombstones received from a peer (delete_all)
 pub mod rusqlite { pub struct Error { x: u8 } }
+pub uninterp spec fn stmt_executed<P>(p: P) -> bool;
 pub struct Statement { x: u8 }
 impl Statement {
-    /// any statement may fail
+    /// any statement may fail; a successful execution was bound to the parameters `p` (a fact only this contract establishes)
     #[verifier::external_body]
-    pub fn execute<P>(&mut self, p: P) -> (r: std::result::Result<usize, rusqlite::Error>) { unimplemented!() }
+    pub fn execute<P>(&mut self, p: P) -> (r: std::result::Result<usize, rusqlite::Error>) ensures r is Ok ==> stmt_executed(p) { unimplemented!() }
 }
 pub struct Connection { x: u8 }
 impl Connection {
@@ -196,6 +197,9 @@ impl Node {
     /// removes the text of the rows about to be deleted from the full-text index (SQL; under contract in u14_index): touches no mark
     #[verifier::external_body]
     pub fn delete_from_index<P>(query: &str, params: P, conn: &Connection) -> (r: std::result::Result<(), rusqlite::Error>) { unimplemented!() }
+    /// the LOCAL hard deletion (Node::delete, under contract in u14_index): keyed by the row id alone, whatever the room; touches no mark
+    #[verifier::external_body]
+    pub fn delete(id: &Uid, conn: &Connection) -> (r: std::result::Result<(), rusqlite::Error>) { unimplemented!() }
 }
 /// the deletion record was handed to the deletion log by a successful write: facts only these contracts establish
 pub uninterp spec fn node_tombstone_written(e: NodeDeletionEntry) -> bool;
@@ -220,6 +224,8 @@ impl EdgeDeletionEntry {
                 it.seq().len() == old(nodes)@.len(), forall|i: int| #![trigger it.seq()[i]] #![trigger old(nodes)@[i]] 0 <= i < it.seq().len() ==> *it.seq()[i] == old(nodes)@[i],
                 forall|i: int| 0 <= i < it.index@ ==> marked(*daily_log, (#[trigger] old(nodes)@[i]).room_id, old(nodes)@[i].entity@, spec_day(old(nodes)@[i].deletion_date))
                     && marked(*daily_log, old(nodes)@[i].room_id, old(nodes)@[i].entity@, spec_day(old(nodes)@[i].mdate)),
+                // [received_row_deletions_bound_so_far]{C02}
+                forall|i: int| 0 <= i < it.index@ ==> stmt_executed(((#[trigger] old(nodes)@[i]).room_id, old(nodes)@[i].id)),
                 // [received_node_tombstones_recorded_so_far]{C11}
                 forall|i: int| 0 <= i < it.index@ ==> node_tombstone_written(#[trigger] old(nodes)@[i]),
 //@ spec
@@ -229,6 +235,8 @@ impl EdgeDeletionEntry {
                     && marked(*final(daily_log), old(nodes)@[i].room_id, old(nodes)@[i].entity@, spec_day(old(nodes)@[i].mdate)),
             // [received_node_tombstones_keep_marks]
             marks_superset(*old(daily_log), *final(daily_log)),
+            // [received_row_deletion_is_bound_to_the_record_room_and_id]{C02} the statement that deletes the row of a received deletion record is bound to the room AND the id the record names - the room in which the author's right was checked: a record accepted for one room never removes a row stored in another (the statement text, `WHERE room_id=? AND id=?`, is SQL and is assumed)
+            r is Ok ==> forall|i: int| 0 <= i < old(nodes)@.len() ==> stmt_executed(((#[trigger] old(nodes)@[i]).room_id, old(nodes)@[i].id)),
             // [received_node_deletion_always_recorded]{C11} every deletion record received from a peer is written to the deletion log - whether or not the row it deletes is stored here: it is what keeps this peer from fetching the row back, later, from a peer that has not seen the deletion, and what this peer hands on
             r is Ok ==> forall|i: int| 0 <= i < old(nodes)@.len() ==> node_tombstone_written(#[trigger] old(nodes)@[i]),
 //@ end
